@@ -302,6 +302,26 @@ def search(ctx, broken, details, tie_res):
                         failing.append({'signature': o[0], 'what': f'[{name}] ' + o[1],
                                         'case': {'kind': 'e2e', 'text': cand, 'obligation': name}})
                         break
+    if not failing:
+        # the regenerated tables could not be produced or certified and no certificate witness replays: search the implementation
+        # directly over strings built from the alphabets the property speaks about (incl. what a widened character class would
+        # let in: non-ASCII decimal digits, full-width forms, other Unicode letters)
+        odd = ['\u0665', '\uff15', '\u096b', '\u00b2', '\u0661', '\u00e9', '\u00a0', '\uff0e', '\uff45', '\u212f']
+        cands = []
+        for tmpl in ['1.5', '1e5', '.5', '-1.5', '1.', '1.5e+3', '+.5e-1', '.inf', '-.inf', '.nan', 'true', 'False', 'TRUE', '12.', '0.0']:
+            for i in range(len(tmpl)):
+                for ch in odd:
+                    cands.append(tmpl[:i] + ch + tmpl[i + 1:])
+                    cands.append(tmpl[:i] + ch + tmpl[i:])
+            cands += [tmpl + ch for ch in odd]
+        small = list('01.eE+-_:') + odd[:3]
+        cands += [a + b for a in small for b in small] + [a + b + c for a in small for b in small for c in small]
+        for cand in cands:
+            o = e2e_oracle(load, cand)
+            if o is not None:
+                failing.append({'signature': o[0], 'what': '[direct search] ' + o[1], 'case': {'kind': 'e2e', 'text': cand}})
+                if len(failing) >= 3:
+                    break
     for d in tie_res.get('disagreements', []):
         o = e2e_oracle(load, d['text'])
         if o is not None:
